@@ -26,7 +26,11 @@ PLAN = {
         dict(test="TestC09N", quick=(5000, 8), thorough=(100000, 8), timeout_thorough=7200),
         dict(test="TestC09S", quick=(2000, 8), thorough=(40000, 8), timeout_thorough=7200),
     ],
-    "C11": [dict(test="TestC11", quick=(2500, 16), thorough=(40000, 16), timeout_thorough=7200)],
+    "C11": [
+        dict(test="TestC11", quick=(2500, 16), thorough=(40000, 16), timeout_thorough=7200),
+        # at emission, every correct peer is cloned by replay and judged at once (the variant the property's quantifier names for the thorough tier)
+        dict(test="TestC11Clone", quick=(100, 8), thorough=(4000, 16), timeout_thorough=7200),
+    ],
     "C10": [dict(test="TestC10", quick=(2500, 16), thorough=(40000, 16), timeout_thorough=7200)],
     "C12": [
         dict(test="TestC12N", quick=(4000, 8), thorough=(150000, 8), timeout_thorough=7200),
@@ -83,7 +87,7 @@ RULES = {
     "C07": "Engine N: one real node in a generated state (committee 4..9, weights, leader order, 0..5 prefix steps: timeouts, valid proposals/NEW_VIEWs, prepares), then 1..3 candidate messages (NEW_VIEW, stand-alone PREPREPARE, VIEW_CHANGE to the node as leader) built VALID by reference builders and given 0..3 mutations from a 43-entry catalogue (header fields, sender, signatures, votes dropped/duplicated/unsigned/re-signed/outsider/other view-height-instance-type, proofs forged/other views/below quorum, embedded proposal fields, other/invalid block). Oracle: any effect (store, send, view move) of a NEW_VIEW implies ref.ValidNewView; PREPARE/adoption in v>0 only via NEW_VIEW; a leader's NEW_VIEW embeds only reference-valid votes of quorum weight. Engine S adds the same oracle as a monitor on every delivery of generated cluster executions. Non-trivial = candidate with exactly one mutation, or an unmutated candidate that was accepted (control). Distinct = the whole case.",
     "C08": "Engine N as C07 with candidates PREPREPARE/PREPARE/COMMIT/VIEW_CHANGE; oracle: any effect (Store* true, send, view move, commit) implies ref.mayInfluence (signature under the claimed sender's key, sender in committee, this instance and height, header tag = envelope, role fits, share valid, not stale, proof valid). Engine S: same oracle on every delivery of generated cluster executions. Non-trivial = exactly one mutation, or accepted control (N); a Byzantine/outsider message was stored (S).",
     "C09": "Engine N: node brought to prepared in generated views then timed out (voter), or fed 1..8 generated VIEW_CHANGE candidates (with genuine proofs of different views, mutated variants: block missing/other, proof dropped/forged/below quorum...) as leader (collector); engine S: every VIEW_CHANGE / NEW_VIEW a correct node emits in generated cluster executions. Oracle: VIEW_CHANGE sent while prepared carries a reference-valid proof of the highest prepared view + matching block; NEW_VIEW embeds exactly the stored votes, each still verifying, proposes the block of the highest-view valid proof, fresh proposal iff no vote carries a proof. Non-trivial = vote sent while prepared, or NEW_VIEW emitted with a proof among its votes (S); exactly one mutation or accepted control (N).",
-    "C11": SIM_RULE + "Oracle at every delivery of a message a correct node sent to a correct peer in a matching state (same height and chain; NEW_VIEW: peer view <= v and no proposal stored for v; VIEW_CHANGE: peer leads v and view <= v; PREPARE: peer view <= v; COMMIT: any): the accepting effect happens (adopted+stored+PREPARE / Store* call). Non-trivial = judged delivery in a run where some correct node had stored a Byzantine/outsider message before.",
+    "C11": SIM_RULE + "Oracle at every delivery of a message a correct node sent to a correct peer in a matching state (same height and chain; NEW_VIEW: peer view <= v and no proposal stored for v; VIEW_CHANGE: peer leads v and view <= v; PREPARE: peer view <= v; COMMIT: any): the accepting effect happens (adopted+stored+PREPARE / Store* call). Non-trivial = judged delivery in a run where some correct node had stored a Byzantine/outsider message before. Second test (few cases in quick, many in thorough): at emission of every NEW_VIEW / VIEW_CHANGE (and every 6th PREPARE / COMMIT) each correct peer at that height is cloned by replaying its entire input history into a fresh node, the message is delivered to the clone and acceptance is judged there, whether or not the schedule ever delivers it.",
     "C12": "Layer 1 (engine N, in process): a fresh real node in a generated state receives (a) raw content bytes: random, or a valid serialised message of any of the five kinds with 1..3 byte operations (truncate, bit flip, 32-bit word set to 0/1/2^31/2^32-1.., insert, drop); (b) structurally valid messages with 1..3 field mutations incl. views/heights 2^63, 2^64-1, empty ids/signatures, nil blocks, proofs without preparers, NEW_VIEW without votes. Oracle: neither the main-loop step nor the worker step panics, and afterwards the node commits a scripted valid round and reacts to an election trigger. Layer 2 (engine R): the same kinds of hostile bytes through HandleConsensusMessage of the real two-goroutine runtime, then scripted rounds: no 'recovered panic' in the supervisor log, the follow-up round commits (quiescence-judged). Thorough adds native fuzzing of layer 1. Non-trivial = the input parses as one of the five message kinds or is a structured message with an extreme field. Distinct = the whole case.",
     "C13": "Engine R: generated op sequences (scripted rounds of the other members, election triggers for the current or stale positions, UpdateState with older/equal/newer heights and bursts, SPI gates hold/ctx on propose/validate/committee/commit, failing commit callbacks, committee lookup failing once) on the real runtime with a 50us (height,view) poller; engine S: generated cluster executions with syncs. Oracle (pure history invariants, true under every interleaving): commit-callback heights strictly increase, new-round heights strictly increase, (h,v) samples never decrease lexicographically, no round <= a committed height, election registrations lexicographically non-decreasing with view 0 first on a new height. Non-trivial = a sync/trigger was issued while an SPI gate was closed, or a commit callback failed (R); a sync happened or >= 2 heights completed (S).",
     "C14": "Engine R op sequences emphasising UpdateState (older/equal/newer, bursts without yielding, 'settle, stale sync, settle' triples) interleaved with rounds and SPI gates. Oracle: UpdateState returns within its deadline; for every call that returned nil with block height >= the height being decided, the node is above that height at final quiescence; rounds not preceded by the node's own successful commit have canBeFirstLeader=false and no view-0 PREPREPARE above height 1; a stale sync between two settled points changes nothing (sends, callbacks, (h,v)). Non-trivial = a burst, or a sync while a gate was closed.",
